@@ -111,11 +111,11 @@ def _drive(sd, texts, sample, files, whole_a=True):
 
     def a():
         return vf.go_test(ov, "./internal/util/javascript/", "^TestVerifC34Minify$",
-                          env={"VERIF_IN": tin, "VERIF_OUT": ioa, "VERIF_FILES": fa}, timeout=1500)
+                          env={"VERIF_IN": tin, "VERIF_OUT": ioa, "VERIF_FILES": fa}, timeout=3000)
 
     def b():
         return vf.go_test(ov, "./internal/server/assets/", "^TestVerifC34Asset$",
-                          env={"VERIF_IN": sin, "VERIF_OUT": iob, "VERIF_FILES": fb}, timeout=1500)
+                          env={"VERIF_IN": sin, "VERIF_OUT": iob, "VERIF_FILES": fb}, timeout=3000)
 
     with ThreadPoolExecutor(max_workers=2) as ex:
         fa_, fb_ = ex.submit(a), ex.submit(b)
@@ -153,7 +153,7 @@ def _replay(chk, sd, path):
     texts = [rp["in"]]
     la, lb = _drive(sd, texts, texts, _files())
     for lvl, log in (("A", la), ("B", lb)):
-        bad, _f, _s = _judge(chk, sd, log[:1], "replay" + lvl, 1, 600)
+        bad, _f, _s = _judge(chk, sd, log[:1], "replay" + lvl, 1, 3600)
         _report(chk, bad, lvl)
     chk.cov.update(states=1, transitions=1, traces_validated_against_impl=2, evaluations=2, rule="replay of " + path)
     chk.sample({"kind": "replayed", "in": _show(texts[0][:200]), "out": _show(la[0]["out"][:200])})
@@ -194,7 +194,7 @@ def run():
             name, (mod, cfg, kw) = item
             kw = dict(kw)
             kw.setdefault("workers", 4 if name in ("nbr", "bsel", "bsel2", "bval", "bstr") else 1)
-            r = vf.tlc(SPEC, mod, name + ".cfg", sd, timeout=2400 if thorough else 900, files={name + ".cfg": cfg},
+            r = vf.tlc(SPEC, mod, name + ".cfg", sd, timeout=14400 if thorough else 3600, files={name + ".cfg": cfg},
                        env=JVM_SMALL, **kw)
             vf.log("tlc %-6s %6.1fs  %d states, %d records" % (name, r.wall, r.distinct, len(r.records)))
             return name, r
@@ -241,7 +241,7 @@ def run():
         # 4. F: the real code, then the contract
         la, lb = _drive(sd, texts, sample, files, whole_a=thorough)     # quick: the whole files go through level B only
         vf.log("drivers done at %.0fs: %d stylesheets (level A %d records, level B %d)" % (time.time() - chk.t0, len(texts), len(la), len(lb)))
-        to = 2400 if thorough else 900
+        to = 14400 if thorough else 3600     # safety nets only (the machine is shared); a timeout is never a verdict
         with ThreadPoolExecutor(max_workers=2) as ex:
             ja = ex.submit(_judge, chk, sd, la, "A", 6, to)
             jb = ex.submit(_judge, chk, sd, lb, "B", 2, to)
